@@ -41,10 +41,10 @@ impl Table {
     }
     pub fn hval(&self, t: &str) -> String {
         match (t, self.alt) { ("v1", false) => "alpha".into(), ("v1", true) => "example.com".into(), ("v2", false) => "beta2".into(), ("v2", true) => "*/*".into(),
-            ("vl", _) => "l".repeat(200), ("vs", false) => "a b; c=d".into(), ("vs", true) => "text/plain; charset=utf-8".into(), _ => "x".into() }
+            ("vl", _) => "l".repeat(200), ("v0", _) => String::new(), ("vs", false) => "a b; c=d".into(), ("vs", true) => "text/plain; charset=utf-8".into(), _ => "x".into() }
     }
     fn unhval(&self, raw: &str) -> Value {
-        json!(raw.split(", ").map(|p| { for t in ["v1", "v2", "vl", "vs"] { if self.hval(t) == p { return t.to_string() } } format!("?{}", util::clip(p, 12)) }).collect::<Vec<_>>())
+        json!(raw.split(", ").map(|p| { for t in ["v1", "v2", "vl", "vs", "v0"] { if self.hval(t) == p { return t.to_string() } } format!("?{}", util::clip(p, 12)) }).collect::<Vec<_>>())
     }
 }
 
@@ -85,7 +85,7 @@ pub fn build(req: &Value, t: &Table, seed: u64) -> Built {
     for (k, h) in arr(&req["headers"]).iter().enumerate() {
         let name = t.cased(t.hname(s(&h["n"])), s(&h["c"]));
         let mut val = t.hval(s(&h["v"])).into_bytes();
-        if k == 0 { match fault { "nul-in-header-value" => val.insert(1, 0), "nonutf8-in-header-value" => val.insert(1, 0xFF), "header-line-too-long" => val = vec![b'h'; 2000], _ => {} } }
+        if k == 0 { match fault { "nul-in-header-value" => val.insert(1.min(val.len()), 0), "nonutf8-in-header-value" => val.insert(1.min(val.len()), 0xFF), "header-line-too-long" => val = vec![b'h'; 2000], _ => {} } }
         if k == 0 { first_header_name_mid = head.len() + name.len() / 2 }
         head.extend_from_slice(name.as_bytes());
         if k == 0 && fault == "header-no-colon" { head.push(b' ') } else { head.extend_from_slice(b": ") }
@@ -220,7 +220,7 @@ pub fn gen(rng: &mut Rng, i: usize) -> Value {
     let query: Vec<Value> = if hasq { (0..rng.below(4)).map(|_| json!([*rng.pick(&["k1", "k2"]), *rng.pick(&["v1", "ve", "e", "vq"])])).collect() } else { vec![] };
     let hl = [("Host", "canon", "v1"), ("Host", "lower", "v2"), ("Accept", "mixed", "v1"), ("Accept", "upper", "v2"), ("Accept", "canon", "vl"), ("CT", "canon", "vs"), ("CT", "mixed", "v1"),
               ("XA", "canon", "v1"), ("XA", "canon", "v2"), ("XA", "lower", "v2"), ("XB", "mixed", "vl"), ("XB", "upper", "vs"), ("XA", "upper", "vs"), ("Host", "mixed", "vs"),
-              ("User-Agent", "upper", "v1"), ("User-Agent", "mixed", "v2"), ("If-None-Match", "mixed", "v2"), ("Sec-WebSocket-Key", "upper", "v1"), ("Referer", "lower", "vs"), ("Via", "upper", "v1"), ("TE", "lower", "v1")];
+              ("XB", "canon", "v0"), ("Accept", "lower", "v0"), ("Via", "canon", "v0"), ("User-Agent", "upper", "v1"), ("User-Agent", "mixed", "v2"), ("If-None-Match", "mixed", "v2"), ("Sec-WebSocket-Key", "upper", "v1"), ("Referer", "lower", "vs"), ("Via", "upper", "v1"), ("TE", "lower", "v1")];
     let mut headers = vec![]; let mut long = 0;
     for _ in 0..rng.below(7) { let h = rng.pick(&hl); if h.2 == "vl" { long += 1; if long > 3 { continue } } headers.push(json!({"n": h.0, "c": h.1, "v": h.2})) }
     let body = if (["POST", "PUT", "PATCH", "DELETE"].contains(&m) && rng.chance(2, 3)) || rng.chance(1, 4) {
